@@ -46,6 +46,8 @@ def pieces_of(df, offs, parts):
         cols = [ch[p].tolist() for p in parts]
         for j, rid in enumerate(ch["rid"].tolist()):
             key = tuple(c[j] for c in cols)
+            if any(k is None for k in key):
+                continue             # a row without a complete key is not stored
             groups.setdefault(key, []).append(int(rid))
         nd.append([("/".join(f"{p}={k}" for p, k in zip(parts, key)), rows) for key, rows in sorted(groups.items())])
     return nd
@@ -128,11 +130,19 @@ def run(ctx, report):
                 kind, forced_sp = "g", True
             n = rng.choice([1, 2, 4, 7])
             offs = rng.choice([None, [0], [0, n // 2] if n > 1 else [0], 2, 3])
+            null_key = False
+            if nparts >= 2 and step == 1 and h % 5 == 3:
+                # directed: an append one of whose rows has a missing partition key (the row is dropped by the partitioning;
+                # row counts in the metadata must describe what was stored)
+                kind, n, offs, null_key = "a", 4, None, True
             rec = {"check": "history", "partition_columns": parts, "history": list(hist), "step": step, "frame_shape": dict(shape)}
             ctx.crumb(rec)
             try:
                 if kind in ("w", "a", "o", "g"):
                     df = frame(n)
+                    if null_key:
+                        df["q"] = df["q"].astype(object)
+                        df.loc[df.index[1], "q"] = None
                     nd = pieces_of(df, offs, parts)
                 if kind == "w":
                     fastparquet.write(path, df, file_scheme="hive", partition_on=parts, row_group_offsets=offs, write_index=False)
@@ -221,6 +231,8 @@ def run(ctx, report):
                 if (d, i) in refd:
                     probs.append(f"{d}/part.{i}.parquet is referenced by two row groups")
                 refd[(d, i)] = True
+            if pf.fmd.num_rows != sum(nrows for (_d, _i, nrows) in refs):
+                probs.append(f"FileMetaData.num_rows of _metadata states {pf.fmd.num_rows} but its row groups add up to {sum(nrows for (_d, _i, nrows) in refs)}")
             for k in files:
                 if k not in refd:
                     probs.append(f"unreferenced part file {k[0]}/part.{k[1]} left behind")
